@@ -96,6 +96,11 @@ def gen_real(t):
     sign = t.pick(["", "", "-", "+"], "real.sign")
     a = str(t.draw(1000, "real.int"))
     b = "%0*d" % (1 + t.draw(4, "real.fd"), t.draw(10000, "real.frac"))
+    if t.coin(6, 100, "real.long"):
+        # many decimal places: leading zeros behind the point and / or a long tail of digits (the value is what
+        # float() makes of the whole token)
+        txt = t.pick(["0", "", a], "real.long.int") + "." + "0" * t.pick([0, 5, 16, 17, 18, 25], "real.long.zeros") + "".join(str(t.draw(10, "real.long.d")) for _ in range(t.pick([1, 3, 17, 20], "real.long.n")))
+        return Real(sign + txt)
     if form == 0:
         txt = a + "."
     elif form == 1:
